@@ -45,7 +45,7 @@ CLAIMS = {
     'C36': dict(
         text='Proof (all integer process ids, all paths) for Pool.connect (inherited by SQLitePool and PGPool) and OraPool.connect: a connection or session '
              'pool recorded under a different pid is never returned, receives no call at all, is parked so that it is not finalised in the child, and the pool '
-             'records the current pid; with an equal pid the pooled connection is reused.',
+             'records the current pid; with an equal pid the pooled connection is reused. Pool.disconnect closes its own connection and parks one of another process. BOUNDED (concrete pids): with 1..3 pools every inherited connection stays reachable from the keep-alive store and unused.',
         note='Per-call guarantee only: a fork inside an open session (child inherits cache.connection) and cross-process visibility of data are not covered. '
              'os.getpid is an effect returning an arbitrary int; driver modules are stubs supplying recording objects.'),
     'C32': dict(
@@ -111,7 +111,7 @@ CLAIMS = {
              'values: the call raises exactly when a new key is held by another object, and then both maps, the object\'s values, status, write bits and save-queue position '
              'equal the snapshot (the real undo closures run); on success the maps change exactly. (2) BOUNDED: 26 modification scenarios on a real session (assignment, set(), '
              'creation, collection assign/add/remove/clear, one-to-one steal, delete with cascade and refusal) with every do/undo callee failing at every call position: the '
-             'whole session snapshot is restored on every raising path.',
+             'whole session snapshot is restored on every raising path; a refused assignment to a lazy unique attribute that is not loaded raises CacheIndexError and changes nothing.',
         note='One injected callee failure per path (not combinations); callee contract "raises => changed nothing" (proved for index functions in C11). Scenario set and model are fixed; '
              'histories of several failing calls are not covered.'),
     'C12': dict(
@@ -162,7 +162,7 @@ CLAIMS = {
              'of attributes read and every write-before / write-after variant, Entity._construct_optimistic_criteria_ yields exactly the attributes read before being written '
              '(excluding volatile / non-optimistic ones) against the value that was read (IS NULL for None); Entity._save_updated_ adds the criteria iff the session is optimistic and '
              'the object is not locked for update, raises OptimisticCheckError on zero affected rows, and runs the UPDATE inside the transaction. Attributes that occupy several columns (references to 2- and 3-column keys): every subset of 5 attributes read x each of 8 columns changed by somebody else: refused exactly when a column of a read attribute changed. End to end on a diamond hierarchy: 4 classes x 5 attributes x 9 ways of '
-             'reading (attribute access, to_dict, query conditions over several entities of the hierarchy, get() by value) x with / without a foreign change: writing the object afterwards fails iff the attribute was changed.',
+             'reading (attribute access, to_dict, query conditions over several entities of the hierarchy, get() by value) x with / without a foreign change: writing the object afterwards fails iff the attribute was changed. PROOF (symbolic integer values, shared with C21): a row fetched again while a read-modify-write is pending reports the foreign change instead of replacing the remembered database value.',
         note='Schedules of concurrent sessions are outside the technique; atomic evaluation of the WHERE clause by the database is assumed. Bounds: one entity, 5 column attributes.',
         technique='contracts on real functions, bounded exhaustive enumeration of read/write sets (contract-based family, bounded stand-in)'),
     'C01': dict(
@@ -181,7 +181,7 @@ CLAIMS = {
              'the dialect semantics of the specification library, so agreement between dialects is the corollary; plus boolean / NULL / integer literal forms per dialect value class. '
              'BOUNDED: the string functions (upper, lower, len, strip / lstrip / rstrip with and without chars, +, replace, nested) rendered by the real builders of all six dialect classes, the '
              'SQLite text executed, the others evaluated under each server\'s documented function semantics by a small interpreter of the emitted forms, each answer equal to Python\'s; the same for date parts, '
-             'date(), datetime +/- timedelta, date +/- days and differences on the generic / PostgreSQL / CockroachDB / MySQL / Oracle builders. The locking form of a query (SELECT_FOR_UPDATE, shared with C35) names the same rows in the same order on every builder, Oracle\'s ROWID rewrite of limited queries included.',
+             'date(), datetime +/- timedelta, date +/- days and differences on the generic / PostgreSQL / CockroachDB / MySQL / Oracle builders. The LIMIT section as rendered by each builder denotes the window asked for (limits incl. 0, offsets, Oracle ROWNUM idiom). The locking form of a query (SELECT_FOR_UPDATE, shared with C35) names the same rows in the same order on every builder, Oracle\'s ROWID rewrite of limited queries included.',
         note='No PostgreSQL / MySQL / Oracle server or driver is available: server behaviour is represented by documented-semantics clauses (assumed contracts on dependencies; SQLite clauses are '
              'validated against the real engine). Only mechanisms under contract are compared, not whole queries. Known findings of C25 / C06 reappear here, plus MySQL strip() with several characters and the clipped MySQL TIMEDIFF.'),
     'C17': dict(
@@ -217,7 +217,7 @@ CLAIMS = {
              'db + |added| - |removed|, computed with auto-flush disabled, and caches it. BOUNDED differential end to end on real SQLite: for 12 unflushed modifications (and pairs) x 5 warm-up '
              'states x 29 reads (attribute, collection iteration / count / len / is_empty / in, get by pk / unique, exists, select with lambda / keyword filters, aggregates, to_dict, joins) '
              'the answer inside the modifying session equals the answer of a new session after the same modifications were committed. BOUNDED: attributes assigned without being read on an '
-             'object known by key only / partly / completely, then one of 14 row-fetching operations (some with auto-flush off), then reads in the session and after commit against a dict.',
+             'object known by key only / partly / completely, then one of 14 row-fetching operations (some with auto-flush off), then reads in the session and after commit against a dict. Entity.select_random (answered from the identity map) is among the reads.',
         note='Agreement of cache-answered lookups with database queries is history-dependent: covered only for the enumerated scripts (bounded). The oracle is pony itself after commit.'),
     'C15': dict(
         category='other',
@@ -281,7 +281,7 @@ CLAIMS = {
         text='BOUNDED stand-in (never counted as proved): the same 12 observation programs (attribute values incl. lazy ones, related objects, collection contents, counts, emptiness, '
              'membership, navigation chains, subclass attributes; two read after a refused delete, three after pending collection changes) run on the same stored data under 5 model variants (default; every non-key attribute, reference and collection lazy; '
              'collection batch loading disabled; batch loading from the first access; batches of at most 3 objects) x 5 loading strategies (plain access, prefetch() of every relation and lazy attribute, objects first '
-             'seen as unloaded references, everything loaded by one big query first, reverse access order): every run observes exactly what the baseline run observes.',
+             'seen as unloaded references, everything loaded by one big query first, reverse access order): every run observes exactly what the baseline run observes (14 programs, four of them after pending collection changes such as a new link added and removed again before a flush).',
         note='A relation between whole runs: no single-call contract expresses it; this is a differential check on one model and data set. The oracle is the baseline run.'),
     'C09': dict(
         category='other',
